@@ -41,6 +41,7 @@ func vfSealSchedRun(sc vfScript) []map[string]any {
 	nmsg, _ := vfNum(sc.Cfg, "msgs")
 	warm, _ := vfNum(sc.Cfg, "warm")
 	restart, _ := vfBool(sc.Cfg, "restart")
+	redeliver, _ := vfBool(sc.Cfg, "redeliver") // the device's own chain-key announcement (taken at counter 0) comes back again and again
 	ds := dssync.MutexWrap(datastore.NewMapDatastore())
 	mk := func() secretstore.SecretStore {
 		s, err := secretstore.NewSecretStore(vfGateDS{ds}, nil)
@@ -57,6 +58,16 @@ func vfSealSchedRun(sc vfScript) []map[string]any {
 	if err := s.PutGroup(ctx, g); err != nil {
 		vfInfra("put group: %v", err)
 	}
+	var ann0 []byte
+	if redeliver {
+		omd0, err := s.GetOwnMemberDeviceForGroup(g)
+		if err != nil {
+			vfInfra("own member device: %v", err)
+		}
+		if ann0, err = s.GetShareableChainKey(ctx, g, omd0.Member()); err != nil {
+			vfInfra("own announcement: %v", err)
+		}
+	}
 	for i := 0; i < warm; i++ {
 		if _, err := s.SealEnvelope(ctx, g, []byte{1}); err != nil {
 			vfInfra("warm-up seal: %v", err)
@@ -70,6 +81,9 @@ func vfSealSchedRun(sc vfScript) []map[string]any {
 		vfInfra("own member device: %v", err)
 	}
 	gpk, _ := g.GetPubKey()
+	if redeliver {
+		_ = s.RegisterChainKey(ctx, g, omd.Device(), ann0) // as the group context does on GroupDeviceChainKeyAdded and on every reopen
+	}
 	c := verifsched.New()
 	counters := make([][]int, nthr)
 	errs := 0
@@ -88,6 +102,9 @@ func vfSealSchedRun(sc vfScript) []map[string]any {
 					continue
 				}
 				counters[t] = append(counters[t], int(h.Counter))
+				if redeliver {
+					_ = s.RegisterChainKey(ctx, g, omd.Device(), ann0)
+				}
 			}
 		})
 	}
